@@ -16,8 +16,10 @@ Code modelled:
     expired) action execution: action_handler.on_action_complete(action_ex, Result(error=..)).
   * DefaultEngine.start_task -> task_handler.run_task -> RegularTask.run(first_run):
       _run_new      : only an IDLE task is set RUNNING and gets its action scheduled;
-      _run_existing : a SUCCESS task raises MistralError (rolled back); ANY other state: set RUNNING,
-                      un-accept (reset) old action executions, schedule a NEW action execution.
+      _run_existing : a SUCCESS task raises MistralError (rolled back); a RUNNING task with an action
+                      (or sub-workflow) execution that has not completed: return, nothing changes
+                      (repo commit 258aaaae); ANY other state: set RUNNING, un-accept (reset) old action
+                      executions, schedule a NEW action execution.
   * DefaultEngine.start_workflow with an execution id: the insert of an existing id raises
     DBDuplicateEntryError, the transaction is rolled back and the existing execution is returned.
 Not modelled here: policies (wait/retry/pause-before), with-items tasks, workflow-level state.
@@ -126,9 +128,16 @@ def resetActions (reset : Bool) (as : List ActionRow) : List ActionRow :=
     if reset || (r.accepted && (r.state == .error || r.state == .cancelled))
     then { r with accepted := false } else r
 
+/-- some action execution of the task has not completed -/
+def hasRunningAction (as : List ActionRow) : Bool := as.any fun r => !r.state.completed
+
+/-- the task is running the action of an earlier start request -/
+def inProgress (t : Task) : Bool := t.state == .running && hasRunningAction t.actions
+
 /-- `_run_existing` -/
 def runExisting (t : Task) (reset : Bool) : Task × Verdict :=
   if t.state = .success then (t, .refused)
+  else if inProgress t then (t, .noop)
   else (scheduleAction { t with state := .running, actions := resetActions reset t.actions }, .accepted)
 
 def step (t : Task) : Delivery → Task
@@ -151,6 +160,11 @@ def run (t : Task) : List Delivery → Task
 
 /-- a freshly created task execution (`create_new`: IDLE, no action executions) -/
 def fresh : Task := { state := .idle, actions := [], dispatched := 0, completions := 0 }
+
+/-- the delivery is a start-task request (of either kind) -/
+def Delivery.isStart : Delivery → Bool
+  | .startTask _ _ => true
+  | _ => false
 
 /-- the delivery is not a (re)start of an existing task (`first_run=False`) -/
 def Delivery.notRerun : Delivery → Bool
